@@ -2,6 +2,8 @@ import Norad.Lemmas.NumWriters
 import Norad.Lemmas.RoundTrip
 import Norad.Lemmas.FontRT
 import Norad.Generated.RoundTrip
+import Norad.Generated.Vocab
+import Norad.Lemmas.FieldTable
 import Mathlib.Data.List.Forall2
 /-!
 # C01 — saving a font and loading it back preserves all font data
@@ -518,5 +520,62 @@ theorem model_number_writers :
     kernWrite 2147483647 = .int 2147483647 ∧ kernWrite 2147483648 = .real 2147483648 ∧
     infoWrite (-2147483648) = .int (-2147483648) ∧ upmWrite 2147483647 = .int 2147483647 := by
   refine ⟨?_, ?_, ?_, ?_, ?_, ?_, ?_, ?_, ?_, ?_, ?_⟩ <;> decide +kernel
+
+/-! ## serde of the font-info fields, of the metainfo and of guideline geometry: one table-driven round trip
+
+The field tables are the REGENERATED ones (`Generated.Vocab`, from `src/fontinfo.rs`, `src/font.rs`, `src/guideline.rs` of the
+run): 108 font-info fields with their plist keys and Rust types, 14 record types resolved recursively.  The shape part
+(keys pairwise different in every struct at every depth, all leaf types among the 17 known ones) is decided on the table;
+the value part is `FT.roundtrip`, structural.  What stays assumed is `FT.LeafLaw`: the primitive leaves (strings,
+integers, booleans, enumerations, the int-or-float numbers — for those see `int_or_float_within_1e9` —, the custom
+sequences `Os2Panose` / `Os2FamilyClass` / `Bitlist`) through serde's primitive impls and the `plist` crate. -/
+
+open Generated.Vocab FT in
+/-- the shape of `FontInfo`, read from the source -/
+def fontinfoTy : FT.Ty := structOf recordFields fontinfoFields
+
+open Generated.Vocab FT in
+def metainfoTy : FT.Ty := structOf recordFields metainfoFields
+
+open Generated.Vocab FT in
+/-- `RawGuideline`: six optional leaves under the keys the writer uses -/
+def guidelineTy : FT.Ty := .struct (guidelineWriterKeys.map fun k => (k, true, FT.Ty.leaf k))
+
+/-- the leaf types that occur in the tables -/
+def knownLeaves : List String :=
+  ["f64", "IntegerOrFloat", "String", "Guideline", "Integer", "NonNegativeInteger", "GaspBehavior", "Bitlist",
+   "Os2FamilyClass", "Os2Panose", "Os2WidthClass", "Float", "bool", "PostscriptWindowsCharacterSet", "StyleMapStyle",
+   "NonNegativeIntegerOrFloat", "WoffAttributeDirection", "FormatVersion", "u32"]
+
+/-- **shape part, decided on the regenerated tables**: in the font info, in every record type nested in it, in the
+    metainfo and in the guideline no two fields share a plist key (otherwise one would overwrite the other on write or
+    shadow it on read), every record type a field names is in the table (nothing unresolved is left among the leaves),
+    108 fields, and the guideline writer and reader use the same keys -/
+theorem source_field_tables_shape :
+    FT.keysOK fontinfoTy = true ∧ FT.keysOK metainfoTy = true ∧ FT.keysOK guidelineTy = true ∧
+    (FT.leaves fontinfoTy ++ FT.leaves metainfoTy).all (knownLeaves.contains ·) = true ∧
+    Generated.Vocab.fontinfoFields.length = 108 ∧
+    Generated.Vocab.guidelineWriterKeys = Generated.Vocab.guidelineParserKeys := by
+  refine ⟨by decide +kernel, by decide +kernel, by decide +kernel, by decide +kernel, by decide +kernel, by decide +kernel⟩
+
+/-- **`read (write v) = v` for every value of the font-info table** (all 108 fields, nested records and vectors
+    included), for every leaf codec satisfying the leaf law -/
+theorem fontinfo_fieldtable_roundtrip {L : Type} (C : FT.LeafCodec L) (hL : FT.LeafLaw C) (v : FT.Val L) (p : PV)
+    (h : FT.enc C fontinfoTy v = some p) : FT.dec C fontinfoTy p = some v :=
+  FT.roundtrip C hL fontinfoTy v p source_field_tables_shape.1 h
+
+theorem metainfo_fieldtable_roundtrip {L : Type} (C : FT.LeafCodec L) (hL : FT.LeafLaw C) (v : FT.Val L) (p : PV)
+    (h : FT.enc C metainfoTy v = some p) : FT.dec C metainfoTy p = some v :=
+  FT.roundtrip C hL metainfoTy v p source_field_tables_shape.2.1 h
+
+/-- guideline geometry, name, colour and identifier: the six keys of `RawGuideline` -/
+theorem guideline_fieldtable_roundtrip {L : Type} (C : FT.LeafCodec L) (hL : FT.LeafLaw C) (v : FT.Val L) (p : PV)
+    (h : FT.enc C guidelineTy v = some p) : FT.dec C guidelineTy p = some v :=
+  FT.roundtrip C hL guidelineTy v p source_field_tables_shape.2.2.1 h
+
+/-- non-vacuity: a font info with a family name, a gasp record and nothing else is written as a two-key dictionary -/
+example : ∃ p, FT.enc ⟨fun _ (x : String) => some (PV.str x), fun _ p => match p with | .str s => some s | _ => none⟩
+    (.struct [("a", true, .leaf "String"), ("b", false, .vec (.leaf "String"))])
+    (.struct [none, some (.list [.leaf "x"])]) = some p := ⟨_, rfl⟩
 
 end RT
